@@ -80,7 +80,92 @@ def gen_mj():
     return out
 
 
-GENERATORS = {"MjGen.v": gen_mj}
+def gen_mj_sort():
+    """Structural fingerprint of recursive_bisection::axis_sort, the only sort MultiJagged relies on: the body
+    must be exactly one `par_sort_unstable_by` over the permutation whose comparator orders by
+    points[i][current_coord] with `<` (Less, else Greater).  Anything else (a fast path, another sort, another
+    key) fails closed: the sort oracle of the model (a permutation sorted by the coordinate) is then no longer
+    known to describe the code."""
+    rel = "src/algorithms/recursive_bisection.rs"
+    src = read(rel)
+    m = re.search(r"pub\s+fn\s+axis_sort\s*<\s*const\s+D\s*:\s*usize\s*>\s*\(\s*points\s*:\s*&\[PointND<D>\]\s*,\s*"
+                  r"permutation\s*:\s*&mut\s*\[usize\]\s*,\s*current_coord\s*:\s*usize\s*,?\s*\)\s*\{", src)
+    if not m:
+        raise Fail("signature `pub fn axis_sort<const D: usize>(points: &[PointND<D>], permutation: &mut [usize], current_coord: usize)` not found")
+    body = fn_body(src, "axis_sort")
+    if body is None:
+        raise Fail("body of axis_sort not found")
+    text = re.sub(r"//[^\n]*", "", body)          # comments
+    text = re.sub(r"\s+", "", text)               # all white space
+    expected = ("{permutation.par_sort_unstable_by(|i1,i2|{"
+                "ifpoints[*i1][current_coord]<points[*i2][current_coord]{cmp::Ordering::Less}else{cmp::Ordering::Greater}"
+                "})}")
+    if text != expected:
+        raise Fail("axis_sort is not exactly one par_sort_unstable_by on points[i][current_coord] (body: %s...)" % text[:120])
+    if len(re.findall(r"\baxis_sort\s*\(", read("src/algorithms/multi_jagged.rs"))) != 1:
+        raise Fail("multi_jagged.rs is expected to call axis_sort exactly once")
+    out = HEADER.format(src=rel)
+    out += "Definition mj_axis_sort_is_one_unstable_sort_by_coordinate : bool := true.\n"
+    return out
+
+
+def _norm(body):
+    t = re.sub(r"//[^\n]*", "", body)      # comments
+    t = re.sub(r"\s+", "", t)              # all white space
+    return t.replace(",)", ")")            # trailing commas (rustfmt)
+
+
+_EXPECTED_RECURSE = (
+    "{ifpartition_scheme.num_splits!=0{super::recursive_bisection::axis_sort(points,permutation,current_coord);"
+    "letsplit_positions=compute_split_positions(weights,permutation,&partition_scheme.modifiers);"
+    "letmutsub_permutations=split_at_mut_many(permutation,&split_positions);"
+    "sub_permutations.par_iter_mut().zip(partition_scheme.next.unwrap()).for_each(|(permu,scheme)|{"
+    "multi_jagged_recurse(points,weights,permu,partition,(current_coord+1)%D,scheme,part_id)});}"
+    "else{letpart_id=part_id.fetch_add(1,Ordering::Relaxed);"
+    "permutation.par_iter().for_each(|idx|{letptr=partition.load(Ordering::Relaxed);"
+    "unsafe{std::ptr::write(ptr.add(*idx),part_id)}});}}")
+_EXPECTED_SPLIT_MANY = (
+    "{letret=Vec::with_capacity(positions.len()+1);"
+    "let(muthead,tail,_)=positions.iter().fold((ret,slice,0),|(mutacc_ret,acc_slice,drained_count),pos|{"
+    "let(sub,next)=acc_slice.split_at_mut(*pos-drained_count);letlen=sub.len();acc_ret.push(sub);"
+    "(acc_ret,next,drained_count+len)});head.push(tail);head}")
+_EXPECTED_WITH_SCHEME = (
+    "{letlen=points.len();letmutpermutation=(0..len).into_par_iter().collect::<Vec<_>>();"
+    "letpart_id=AtomicUsize::new(0);"
+    "multi_jagged_recurse(points,weights,&mutpermutation,&AtomicPtr::new(partition.as_mut_ptr()),0,partition_scheme,&part_id);}")
+
+
+def gen_mj_rec():
+    """Structural fingerprint of the recursion of MultiJagged: multi_jagged_with_scheme (identity permutation, one
+    counter starting at 0), multi_jagged_recurse (sort, split positions, split_at_mut_many, one recursive call per
+    (slab, child scheme) pair; leaf = one fetch_add and ONE store per index of the WHOLE permutation slice through
+    `permutation.par_iter().for_each`) and split_at_mut_many (the slabs are the consecutive pieces between the
+    positions, the last one included).  The bodies must be, comments / white space / trailing commas aside, exactly
+    the text the model was written against: any chunking (`chunks_exact`, `par_chunks_exact`), `take`, fixed-size
+    buffers, another iterator or another store fails closed."""
+    rel = "src/algorithms/multi_jagged.rs"
+    src = read(rel)
+    for name, expected in (("multi_jagged_recurse", _EXPECTED_RECURSE), ("split_at_mut_many", _EXPECTED_SPLIT_MANY),
+                           ("multi_jagged_with_scheme", _EXPECTED_WITH_SCHEME)):
+        body = fn_body(src, name)
+        if body is None:
+            raise Fail("fn %s not found" % name)
+        text = _norm(body)
+        if text != expected:
+            i = next((j for j in range(min(len(text), len(expected))) if text[j] != expected[j]), min(len(text), len(expected)))
+            raise Fail("%s differs from the fingerprinted text at: ...%s" % (name, text[max(0, i - 30):i + 60]))
+    for bad in ("chunks_exact", "par_chunks_exact", "rchunks", ".take(", "LEAF_BLOCK"):
+        for name in ("multi_jagged_recurse", "multi_jagged_with_scheme", "split_at_mut_many"):
+            if bad in fn_body(src, name):
+                raise Fail("%s uses %s" % (name, bad))
+    out = HEADER.format(src=rel)
+    out += "Definition mj_recurse_is_fingerprinted_text : bool := true.\n"
+    out += "Definition mj_split_at_mut_many_is_fingerprinted_text : bool := true.\n"
+    out += "Definition mj_with_scheme_is_fingerprinted_text : bool := true.\n"
+    return out
+
+
+GENERATORS = {"MjGen.v": gen_mj, "MjSortGen.v": gen_mj_sort, "MjRecGen.v": gen_mj_rec}
 
 
 _streams = {0: "in contract", 1: "zero weights", 2: "more parts than points", 3: "outside the contract (0 parts / 0 iterations)"}
@@ -88,7 +173,8 @@ _outcomes = {0: "Ok", 1: "panic", 2: "hang", 3: "error"}
 _class_names = {}
 for _s, _sn in _streams.items():
     for _o, _on in _outcomes.items():
-        for _e, _en in ((0, "exact-arithmetic model agrees"), (1, "exact-arithmetic model differs")):
+        for _e, _en in ((0, "exact-arithmetic model agrees"), (1, "exact-arithmetic model differs"),
+                        (2, "large input: judged by the checkers only, model not re-run")):
             _class_names[_s * 100 + _o * 10 + _e] = "%s / %s / %s" % (_sn, _on, _en)
 
 PROP = dict(
@@ -103,7 +189,7 @@ PROP = dict(
          "zero weights / one heavy element (the inputs that panicked before 28ccbdd), tiny weights z*2^-70 (the inputs that broke the balance bound before 70b7d46), subnormal weights z*2^-1074 with 10..45-bit z (1e-320..1e-310), alone or next to 1-3 normal weights (a first-level slab then has a subnormal total), part_count > n, max_iter = 0 and "
          "part_count = 0 (outside the contract); points 2-D/3-D uniform, clustered, collinear, coincident, duplicate "
          "coordinates, lattice, one outlier; weights uniform, random, skewed, one heavy, few heavy, large; max_iter 1..4; "
-         "pools 1,2,4,8,16 (each case also run under one thread); concurrency stream (about 1 case in 25): the call runs 6 times in a row while one or two other MultiJagged::partition calls on other inputs do the same from their own std threads (own rayon pool or the global one), and the first output that is not the partition of the solo run (or else the first) is the one judged; distinct = distinct (D, coordinate bits, weights, "
+         "pools 1,2,4,8,16 (each case also run under one thread); large structured inputs (1 % of the quick cases, 0.4 % of the thorough ones: grids numbered row by row with rows of 1024/2048/3072 points, column-major grids, point sets sorted inside every block of 1024 entries with shuffled blocks; 2048..8192 points; judged by the checkers only); two large unaligned inputs per 1200 cases at fixed indices (clouds / odd-width grids of 9001..30000 points into 2..4 parts, leaves above 4096 points and no multiple of 1024; output buffer prefilled with usize::MAX as everywhere); concurrency stream (about 1 case in 25): the call runs 6 times in a row while one or two other MultiJagged::partition calls on other inputs do the same from their own std threads (own rayon pool or the global one), and the first output that is not the partition of the solo run (or else the first) is the one judged; distinct = distinct (D, coordinate bits, weights, "
          "part_count, max_iter, pool); non-trivial = positive weights, at least 4 points, at least 2 parts, max_iter >= 1",
     class_names=_class_names,
     trusted_base=[
